@@ -1354,8 +1354,13 @@ class Engine:
         pure = self.contract.pure_function(name)
         if pure is not None:
             res = pure(self.ctx, recv, args, kwargs)
+            self.event("pure", str(name), recv, args, kwargs, node, res)
             return res
         res = self.fresh_opq("r_" + str(name).split(":")[-1].split(".")[-1])
+        # an unknown callee may write into every modelled object it can reach through its arguments
+        for a in list(args) + list(kwargs.values()):
+            if isinstance(a, Ref):
+                self._havoc_cell(a)
         ev = self.event("call", str(name), recv, args, kwargs, node, res)
         may_raise = self.contract.callee_may_raise(name)
         if may_raise and (self.exc_stack or self.contract.has_xposts() or self.contract.track_raises):
@@ -1365,6 +1370,23 @@ class Engine:
                 raise RaiseExc(may_raise if isinstance(may_raise, str) else "Exception", (), node)
         self.ghost["heapver"] = self.ghost.get("heapver", 0) + 1
         return res
+
+    def _havoc_cell(self, ref):
+        cell = self.heap[ref.id]
+        k = cell["kind"]
+        if k == "stream":
+            self.set_field(ref, "data", self.fresh_seq("%s.data_h" % cell.get("label", "mem"), "byte", "bytes"))
+            p = self.fresh_int("%s.pos_h" % cell.get("label", "mem"))
+            self.pc.append(p.t >= 0)
+            self.set_field(ref, "pos", p)
+        elif k == "ostream":
+            self.set_field(ref, "out", V.concat(cell["out"], self.fresh_seq("%s.ext_h" % cell.get("label", "out"), "byte", "bytes")))
+        elif k in ("list", "bytearray"):
+            items = cell["items"]
+            try:
+                self.set_field(ref, "items", self.fresh_like(items if not isinstance(items, tuple) else tuple(items), "items_h"))
+            except EngineError:
+                pass
 
     # =============================================================================================
     # statements
@@ -1765,10 +1787,12 @@ class Engine:
             if n in env:
                 cur = env[n]
                 if isinstance(cur, Ref):
-                    # rebinding of a reference variable inside a loop: keep the binding only if never re-assigned
-                    # to a different object; we conservatively reject
-                    if not spec.allow_ref_rebind(n):
+                    # the loop re-binds a variable holding a list: allowed only when the contract declares that the
+                    # variable always refers to an unaliased list (e.g. `x = []` in the body); at the loop head it then
+                    # refers to some list with arbitrary content
+                    if not spec.allow_ref_rebind(n) or self.kind(cur) != "list" or n not in spec.cells:
                         raise EngineError("loop %s re-binds reference variable %s" % (key, n))
+                    env[n] = self.new_list(self.fresh_seq("%s@%s" % (n, spec.name), spec.cells[n], "list"))
                     continue
                 if isinstance(cur, (FuncRef, ClassRef, ExtRef, LambdaV)):
                     continue
@@ -1804,6 +1828,9 @@ class Engine:
                 else:
                     d[field] = self.fresh_like(cur, "%s.%s@%s" % (self.heap[oid].get("label", "o%d" % oid), field, spec.name))
                 self.heap[oid] = d
+        for gname in spec.ghosts:
+            if gname in self.ghost:
+                self.ghost[gname] = self.fresh_like(self.ghost[gname], "%s@%s" % (gname, spec.name))
         self.stats["havocs"].append((key, sorted(names), sorted(str(x) for x in hv)))
         if kind == "for":
             L.i = self.fresh_int("idx@" + spec.name)
@@ -1839,6 +1866,7 @@ class Engine:
             for f in spec.unfold_step(ctx, L):
                 self.assume(f)
             self.cover["loop-body:" + key] = True
+            L.trace_mark = len(self.trace)
             if kind == "for":
                 self.add_index_term(L.i)
             self.loop_ctx.append(lc)
@@ -1854,6 +1882,9 @@ class Engine:
             finally:
                 if lc is not None:
                     self.loop_ctx.pop()
+            if spec.asserts is not None:
+                for label, f in spec.asserts(ctx, L):
+                    self.prove_item("assert", "%s.%s" % (spec.name, label), f, assume_after=False)
             if kind == "for":
                 L.i = L.i + 1
             self.canary("loop-body:" + key)
@@ -2119,7 +2150,26 @@ class Engine:
         return B.get_item(self, o, idx, n)
 
     def ex_Call(self, n):
-        f = self.eval(n.func)
+        if self.abstract and isinstance(n.func, ast.Attribute):
+            recv = self.eval(n.func.value)
+            if isinstance(recv, SOpq):
+                args = [self.eval(a) for a in n.args]
+                kwargs = {k.arg: self.eval(k.value) for k in n.keywords}
+                # a method of the receiver's own (known) class that has a contract is used through that contract
+                sc = getattr(self.contract, "self_class", None)
+                me = (self.contract._bound or {}).get("self_") if hasattr(self.contract, "_bound") else None
+                if sc is not None and me is not None and recv is me:
+                    mod = get_module(sc[0])
+                    cls = mod.classes.get(sc[1]) if mod is not None else None
+                    m = cls.find_method(n.func.attr) if cls is not None else None
+                    if m is not None:
+                        mct = self.registry.contract_for(m.key)
+                        if mct is not None:
+                            return self.apply_contract(mct, m, [recv] + args, kwargs, n)
+                return self.opaque_call(n.func.attr, recv, args, kwargs, n)
+            f = self.getattr(recv, n.func.attr, n.func)
+        else:
+            f = self.eval(n.func)
         args = []
         for a in n.args:
             if isinstance(a, ast.Starred):
@@ -2318,6 +2368,7 @@ class LoopCtx:
         self._elem = None
         self.ghost = {}
         self.loop_ext = {}
+        self.trace_mark = 0
 
     def prepare_iterable(self):
         eng = self.eng
@@ -2336,6 +2387,18 @@ class LoopCtx:
             enum = True
             inner = it.it
             st0 = it.start
+        if isinstance(inner, SOpq):
+            if not eng.abstract:
+                raise EngineError("iteration over an opaque value outside abstract mode")
+            ln = SInt(V.uf("len", V.vsort(), z3.IntSort(), z3.IntSort())(inner.t, z3.IntVal(0)))
+            eng.pc.append(ln.t >= 0)
+            self.n = ln
+            itf = V.uf("item", V.vsort(), z3.IntSort(), V.vsort())
+            if enum:
+                self._elem = lambda i: (i + st0, SOpq(itf(inner.t, V._zi(i))))
+            else:
+                self._elem = lambda i: SOpq(itf(inner.t, V._zi(i)))
+            return
         if isinstance(inner, Ref) and eng.kind(inner) == "reclist":
             from .reclist import RecElem
 
